@@ -7,6 +7,7 @@ import (
 	"go/token"
 	"go/types"
 	"os"
+	"regexp"
 	"sort"
 	"strings"
 	"sync"
@@ -104,6 +105,7 @@ func loadProgram(root string, patterns []string) (*Program, error) {
 		return nil, err
 	}
 	P.specs = specs
+	P.expandTemplates()
 	P.loadSecs = time.Since(t0).Seconds()
 	return P, nil
 }
@@ -462,4 +464,77 @@ func (P *Program) deterministic(fn *ssa.Function) bool {
 		return false
 	}
 	return true
+}
+
+
+// poolNew finds the function stored into the New field of a package-level sync.Pool.
+func (P *Program) poolNew(g *ssa.Global) *ssa.Function {
+	if g.Pkg == nil {
+		return nil
+	}
+	initFn := g.Pkg.Func("init")
+	if initFn == nil {
+		return nil
+	}
+	for _, b := range initFn.Blocks {
+		for _, ins := range b.Instrs {
+			s, ok := ins.(*ssa.Store)
+			if !ok {
+				continue
+			}
+			fa, ok := s.Addr.(*ssa.FieldAddr)
+			if !ok || fa.X != ssa.Value(g) {
+				continue
+			}
+			switch v := s.Val.(type) {
+			case *ssa.Function:
+				return v
+			case *ssa.MakeClosure:
+				if f, ok := v.Fn.(*ssa.Function); ok {
+					return f
+				}
+			}
+		}
+	}
+	return nil
+}
+
+// expandTemplates applies `forall-funcs REGEXP` contract templates to matching functions.
+func (P *Program) expandTemplates() {
+	for _, t := range P.specs.Templates {
+		re, err := regexp.Compile(t.Key)
+		if err != nil {
+			P.specs.ParseErrs = append(P.specs.ParseErrs, "bad forall-funcs regexp "+t.Key)
+			continue
+		}
+		var exc *regexp.Regexp
+		for _, c := range t.get("except") {
+			if len(c.Args) > 0 {
+				exc, _ = regexp.Compile(c.Args[0])
+			}
+		}
+		var fns []*ssa.Function
+		for fn := range P.allFuncs {
+			if fn.Pkg != nil && fn.Pkg.Pkg.Path() == t.Pkg && fn.Blocks != nil && fn.Parent() == nil && re.MatchString(fn.RelString(fn.Pkg.Pkg)) {
+				if exc != nil && exc.MatchString(fn.RelString(fn.Pkg.Pkg)) {
+					continue
+				}
+				fns = append(fns, fn)
+			}
+		}
+		sort.Slice(fns, func(i, j int) bool { return fns[i].String() < fns[j].String() })
+		for _, fn := range fns {
+			key := t.Pkg + "::" + fn.RelString(fn.Pkg.Pkg)
+			if ex, ok := P.specs.ByKey[key]; ok {
+				if ex.has("no-template") {
+					continue
+				}
+				ex.Clauses = append(ex.Clauses, t.Clauses...)
+				ex.Props = append(ex.Props, t.Props...)
+				continue
+			}
+			c := &Contract{Key: fn.RelString(fn.Pkg.Pkg), Pkg: t.Pkg, File: t.File, Line: t.Line, Props: t.Props, Clauses: append([]*Clause{}, t.Clauses...), FromTemplate: true}
+			P.specs.ByKey[key] = c
+		}
+	}
 }
